@@ -734,7 +734,7 @@ pub mod fastq {
 //@closure 0 params="c: &u8" ret="(r: bool)"
             ensures r == (*c == 10u8)
 //@closure 1 params="l: &[u8]" ret="(r: bool)"
-            ensures r == blank(l@)
+            [C02,C12|fastq.check_end.blank_test_trims_cr] ensures r == blank(l@)
 //@all 0
             invariant_except_break
                 vx_r0,
@@ -871,7 +871,7 @@ pub mod fastq {
             decreases
                 (if self.base() + self.b().len() <= self.f().len() { self.f().len() - self.base() - self.b().len() } else { 0 }),
                 (if self.b().len() < self.buf_reader.cap() { 0int } else { 1int }),
-//@before /return self\.check_end/
+//@at depth=3 kw=return nth=0 expect="return "
                 proof {
                     // the buffer is not full although it was filled: it holds the end of the input
                     let (ff, a, bb, s) = (self.f(), self.base(), self.b(), self.buf_pos.pos.0 as int);
@@ -881,13 +881,13 @@ pub mod fastq {
                         if rp(incomplete_pos) == 3 { lemma_group_lift(ff, a, bb, s); } else { lemma_tail_lift(ff, a, bb, s); }
                     }
                 }
-//@before /if let Err\(e\) = self\.grow\(\)/
+//@at depth=3 kw=if nth=0 expect="if let Err\(\w+\) = "
                 proof {
                     if self.b().len() > 0 { lemma_stuck_beyond(self.f(), self.base(), self.b(), self.buf_pos, rp(incomplete_pos)); }
                 }
-//@before /if let Err\(e\) = fill_buf\(&mut self\.buf_reader\)/
+//@at depth=2 kw=if nth=1 expect="if let Err\(\w+\) = "
             let ghost b_before = self.b();
-//@before /if let Some\(pos\) = self\.search_incomplete/
+//@at depth=2 kw=if nth=2 expect="if let Some\(\w+\) = "
             proof {
                 lemma_stuck_facts(b_before, self.buf_pos, rp(incomplete_pos));
                 lemma_chain_prefix(b_before, self.b(), self.buf_pos, rp(incomplete_pos));
@@ -944,14 +944,14 @@ pub mod fastq {
                 lemma_advance(self.f(), self.base(), self.b(), self.buf_pos);
             }
         }
-//@before /if self\.incomplete_pos\.is_none\(\)/
+//@at depth=1 kw=if nth=0 expect="if "
         proof {
             assert(self.ready(old(self)));
             let (ff, a, bb, s) = (self.f(), self.base(), self.b(), self.buf_pos.pos.0 as int);
             lemma_chain_bounds(bb, s);
             if bb.len() > 0 && c4(bb, s) < bb.len() { lemma_group_lift(ff, a, bb, s); }
         }
-//@before /Some\(Ok\(RefRecord \{/
+//@at tail expect="Some\(Ok\("
         proof {
             let (ff, a, bb, s) = (self.f(), self.base(), self.b(), self.buf_pos.pos.0 as int);
             lemma_complete_facts(bb, self.buf_pos);
@@ -1302,7 +1302,7 @@ trait RecordD {
             lemma_count_lf_mono(self.f(), 0, self.position.byte as int);
             if self.state == State::Parsing { lemma_advance(self.f(), self.base(), self.b(), self.buf_pos); }
         }
-//@before /let mut is_new = true;/
+//@at depth=1 kw=let nth=0 expect="let mut \w+ = true;"
         let ghost mut grow_at: int = -1;
         proof { lemma_ps_empty(self.b(), self.f(), old(self).cursor(), self.state == State::Finished); assert(rset.buf_positions@ =~= Seq::<BufferPosition>::empty()); }
 //@loop 0 kw=while
@@ -1323,7 +1323,7 @@ trait RecordD {
             decreases
                 self.f().len() + 2 - self.gpos(),
                 (if self.incomplete_pos is Some { 0int } else { 1int }),
-//@before /if let Some\(pos\) = self\.incomplete_pos\.take\(\)/
+//@at depth=2 kw=if nth=0 expect="if let Some\(\w+\) = "
             let ghost b0 = self.b();
             let ghost k0 = rset.n();
             let ghost cap_before = self.buf_reader.cap();
@@ -1333,7 +1333,7 @@ trait RecordD {
                 lemma_chain_bounds(bb, s);
                 if bb.len() > 0 && c4(bb, s) < bb.len() && self.clean() { lemma_group_lift(ff, a, bb, s); }
             }
-//@before /rset\.buf_positions\.clear\(\);\s*return Some\(Err\(e\)\);/ nth=0
+//@at depth=5 kw=rset nth=0 expect="rset\.\w+\.clear\(\);\s*return Some\(Err\("
                         proof {
                             if self.buf_reader.cap() > cap_before {
                                 grow_at = k0;
@@ -1346,7 +1346,7 @@ trait RecordD {
                                 assert(run_ok(ff, p0, k0) && fmt_err(e, ff, gstart(ff, p0, k0), true_line(ff, gstart(ff, p0, k0))));
                             }
                         }
-//@before /rset\.buf_positions\.clear\(\);\s*return Some\(Err\(e\)\);/ nth=1
+//@at depth=5 kw=rset nth=1 expect="rset\.\w+\.clear\(\);\s*return Some\(Err\("
                         proof {
                             let (ff, p0) = (old(self).f(), old(self).cursor());
                             if old(self).clean() && !old(self).poisoned() && fmt_variant(e) {
@@ -1369,12 +1369,12 @@ trait RecordD {
                                 }
                             }
                         }
-//@before /break;/ nth=0
+//@at depth=5 kw=break nth=0
                         proof {
                             lemma_ps_prefix(rset.buf_positions@, b0, self.b(), self.f(), old(self).cursor());
                             reveal(ps_valid);
                         }
-//@before /rset\.buf_positions\.push\(self\.buf_pos\.clone\(\)\);/
+//@at depth=2 kw=rset nth=0 expect="rset\.\w+\.push\("
             proof {
                 if k0 > 0 {
                     assert(self.b().subrange(0, b0.len() as int) =~= b0);
@@ -1388,7 +1388,7 @@ trait RecordD {
                               self.state == State::Finished, old(self).clean() && !old(self).poisoned());
                 if self.buf_pos.pos.1 < self.b().len() { lemma_advance(self.f(), self.base(), self.b(), self.buf_pos); }
             }
-//@before /rset\.buffer\.clear\(\);/
+//@at depth=1 kw=rset nth=1 expect="rset\.\w+\.clear\(\);"
         proof { broadcast use axiom_ref_items_slice; reveal(ps_valid); reveal(ps_lifted); }
 //@end
 
